@@ -1,4 +1,6 @@
 import LiquidVerif.Lemmas.Lex
+import LiquidVerif.Lemmas.LexLiquid
+import LiquidVerif.Lemmas.LexScan
 /-!
 # C10 — literal text, raw blocks, comments and whitespace control
 
@@ -218,6 +220,111 @@ theorem tokens_start_in_source (d : Delims) (ps : List Piece) (ts : List Token) 
   have := tokenize_slice d ps [] {} ts h
   simpa using this
 
+/-- **Start offsets inside `{% liquid %}`.** For a `liquid` tag anywhere in a template, every inner token that
+the line scanner of the tag (`_tokenize_liquid_expression`, model `LiquidLines.tokenizeLiquid`, run on the tag's
+expression with `token.start_index` of that expression as base) yields — tag names and their expressions, on any
+line, after any comment lines — is the slice of the *template* source at its start index. -/
+theorem liquid_inner_tokens_in_source (d : Delims) (pre post : List Piece) (l r : Bool) (ws0 ws1 e ws2 : Str)
+    (t : LiquidLines.Token)
+    (h : t ∈ (LiquidLines.tokenizeLiquid d.cmtS
+              (pieceMatch d (assemble d pre).length false (.tag l r ws0 kwLiquid ws1 e ws2)).exprStart e).1) :
+    ((assemble d (pre ++ .tag l r ws0 kwLiquid ws1 e ws2 :: post)).drop t.start).take t.value.length = t.value := by
+  obtain ⟨hb, hloc⟩ := liquid_token_located _ _ _ _ h
+  have hsrc : assemble d (pre ++ .tag l r ws0 kwLiquid ws1 e ws2 :: post) =
+      (assemble d pre ++ d.tagS ++ hy l ++ ws0 ++ kwLiquid ++ ws1) ++ (e ++ (ws2 ++ hy r ++ d.tagE ++ assemble d post)) := by
+    simp [assemble_append, assemble, Piece.src, List.append_assoc]
+  have hlen : (assemble d pre ++ d.tagS ++ hy l ++ ws0 ++ kwLiquid ++ ws1).length =
+      (pieceMatch d (assemble d pre).length false (.tag l r ws0 kwLiquid ws1 e ws2)).exprStart := by
+    simp [pieceMatch, List.length_append, Nat.add_assoc]
+  have := located_embed hloc (assemble d pre ++ d.tagS ++ hy l ++ ws0 ++ kwLiquid ++ ws1)
+    (ws2 ++ hy r ++ d.tagE ++ assemble d post)
+  rw [hlen, ← hsrc] at this
+  have hs : (pieceMatch d (assemble d pre).length false (.tag l r ws0 kwLiquid ws1 e ws2)).exprStart
+      + (t.start - (pieceMatch d (assemble d pre).length false (.tag l r ws0 kwLiquid ws1 e ws2)).exprStart) = t.start := by
+    omega
+  rw [hs] at this
+  exact LiquidVerif.SpanLex.located_slice this
+
+/-! ## the string level: a hand scanner in place of "the regex finds the pieces" (deepening round)
+
+`scan d src` (Model/LexScan.lean) is a deterministic scanner over the source *string* that resolves the alternation
+`RAW | DOC | COMMENT | OUTPUT | TAG | CONTENT` the way the backtracking engine does; stream `scan` compares it with
+the real `finditer` on arbitrary strings. -/
+
+/-- **The scanner on text.** At a well-formed text piece (no opening delimiter begins inside it or across its right
+edge) followed by nothing or by markup whose opener shows the hyphen `la`, the scanner finds no markup match and
+its content rule matches exactly the text with look-ahead `la` — for every delimiter set. -/
+theorem scan_text (d : Delims) (pos : Nat) (c : Char) (s rest : Str) (la : Bool)
+    (hwf : allSuffixes (fun t => !startsMarkup d t) (c :: s) rest = true)
+    (hrest : rest = [] ∧ la = false ∨ rest ≠ [] ∧ openerAt? d rest = some la) :
+    matchAt d pos c (s ++ rest) = pieceMatch d pos la (.text (c :: s)) :=
+  matchAt_text d pos c s rest la hwf hrest
+
+/-- **String level, reduced to single markup pieces** (`_partial`: the hypothesis `AllMarkupFound` — each markup
+piece, taken alone at the head of what follows it, is found by the scanner — is not yet discharged from `srcWf`;
+the driver evaluates the conclusion on every generated case). For a well-formed piece list, scanning the assembled
+string yields exactly `matchesOf`: all text pieces, all offsets and the tiling of the string are proved here. -/
+theorem scan_assemble_partial (d : Delims) (ps : List Piece) (hwf : srcWf d ps = true) (hm : AllMarkupFound d ps) :
+    scan d (assemble d ps) = matchesOf d 0 ps :=
+  scan_assemble d ps 0 hwf hm
+
+/-- **String level, text and output statements — full strength.** For every template made of text and output
+statements (any markers, padding, expressions; default `{%` / `{{` openers, any output closer that does not start
+with whitespace, `-` or a word character, shorthand comments off or `{#`), well-formedness alone implies that scanning the assembled
+*string* yields exactly the matches `matchesOf` states: the residual hypothesis of `scan_assemble_partial` is
+discharged for this sub-language. -/
+theorem scan_assemble_text_output (d : Delims) (hT : d.tagS = ['{', '%']) (hS : d.stmtS = ['{', '{'])
+    (hE : plainDelim d.stmtE = true) (hC : d.cmtS = [] ∨ d.cmtS = ['{', '#']) (ps : List Piece)
+    (hk : ps.all (fun p => p.isText || p.isOutput) = true) (hwf : srcWf d ps = true) :
+    scan d (assemble d ps) = matchesOf d 0 ps :=
+  scan_assemble_partial d ps hwf (allMarkupFound_text_output d hT hS hE hC ps hk hwf)
+
+/-- The same for templates of text, output statements and shorthand `{# #}` comments (template comments on). -/
+theorem scan_assemble_text_output_short (d : Delims) (hT : d.tagS = ['{', '%']) (hS : d.stmtS = ['{', '{'])
+    (hE : plainDelim d.stmtE = true) (hC : d.cmtS = [] ∨ (d.cmtS = ['{', '#'] ∧ plainDelim d.cmtE = true))
+    (ps : List Piece) (hk : ps.all (fun p => p.isText || p.isOutput || p.isShort) = true) (hwf : srcWf d ps = true) :
+    scan d (assemble d ps) = matchesOf d 0 ps :=
+  scan_assemble_partial d ps hwf (allMarkupFound_text_output_short d hT hS hE hC ps hk hwf)
+
+/-- **String level, every piece kind — full strength (default delimiters).** With the default tag and output
+delimiters, shorthand comments off or `{# #}`, well-formedness of the piece list alone implies that the scanner run on
+the assembled *string* finds exactly the matches `matchesOf` states — text, output statements, every tag (inline
+comment, liquid, comment / endcomment, …), raw blocks, doc blocks and shorthand comments, with every marker
+combination and padding. The residual hypothesis of `scan_assemble_partial` is discharged
+(`output_found`, `tag_found`, `raw_found`, `doc_found`, `short_found`); what remains trusted is that the scanner
+equals the regex on strings (stream `scan`). -/
+theorem scan_assemble_default (d : Delims) (hT : d.tagS = ['{', '%']) (hTE : d.tagE = ['%', '}'])
+    (hS : d.stmtS = ['{', '{']) (hE : plainDelim d.stmtE = true)
+    (hC : d.cmtS = [] ∨ (d.cmtS = ['{', '#'] ∧ plainDelim d.cmtE = true))
+    (ps : List Piece) (hwf : srcWf d ps = true) :
+    scan d (assemble d ps) = matchesOf d 0 ps :=
+  scan_assemble_partial d ps hwf (allMarkupFound_of_srcWf d hT hTE hS hE hC ps hwf)
+
+/-- **End to end from the source string, full strength**: for every well-formed item list under the default
+delimiters (template comments off or on), scanning, tokenizing and parsing the assembled string yields the
+specified nodes. -/
+theorem string_level_refines_spec (d : Delims) (hd : d = Delims.default ∨ d = Delims.withComments)
+    (items : List Item) (hok : allOk items = true) (hwf : srcWf d (flatten items) = true) :
+    nodesOfString d (assemble d (flatten items)) = .ok (specNodes d false items) := by
+  have hscan : scan d (assemble d (flatten items)) = matchesOf d 0 (flatten items) := by
+    rcases hd with rfl | rfl
+    · exact scan_assemble_default _ rfl rfl rfl (by decide) (Or.inl rfl) _ hwf
+    · exact scan_assemble_default _ rfl rfl rfl (by decide) (Or.inr ⟨rfl, by decide⟩) _ hwf
+  have h := lex_refines_spec d items false hok
+  simp only [nodesFrom] at h
+  simp only [nodesOfString, hscan]
+  exact h
+
+/-- **End to end from the string** (same residual hypothesis): scanning, tokenizing and parsing the source string
+of any well-formed item list gives the specified nodes. -/
+theorem string_level_refines_spec_partial (d : Delims) (items : List Item) (hok : allOk items = true)
+    (hwf : srcWf d (flatten items) = true) (hm : AllMarkupFound d (flatten items)) :
+    nodesOfString d (assemble d (flatten items)) = .ok (specNodes d false items) := by
+  have h := lex_refines_spec d items false hok
+  simp only [nodesFrom] at h
+  simp only [nodesOfString, scan_assemble_partial d _ hwf hm]
+  exact h
+
 /-! ## non-vacuity: the hypotheses are met by concrete templates, including the two inputs that failed
 before the `fix:` commits -/
 
@@ -252,5 +359,13 @@ example :
 /-- `strip_between` is applicable: a doc block with a hyphen on `enddoc`, whitespace-only text, an output with `{{-` -/
 example : allOk (([] ++ [.piece (.doc ⟨false, false, [], []⟩ ['d'] ⟨false, true, [], []⟩)]) ++
       .piece (.text [' ', '\n']) :: .piece (.output true false [] ['1'] []) :: []) = true := by decide
+
+/-- `a {{- x }}`: the residual hypothesis of `scan_assemble_partial` is satisfiable — the output piece is found by
+the scanner at every position — and the theorem then gives the string-level matches. -/
+example : AllMarkupFound Delims.default [.text ['a', ' '], .output true false [' '] ['x'] [' ']] := by
+  refine ⟨fun h => by simp [Piece.isText] at h,
+    ⟨fun _ => ⟨by decide, fun pos la => ⟨'{', _, rfl, ?_⟩, by decide⟩, trivial⟩⟩
+  simp [matchAt, blockAt?, kwTagAt?, stripPrefix?, Delims.default, optHyphen, skipSpaces, isSpace, findFirst, closeAt?,
+    pieceMatch, Piece.src, hy]
 
 end LiquidVerif.C10
